@@ -32,6 +32,13 @@ fn observe_m(g: &m::Dag<u8, u8, u32>) -> String {
         order.push(n.index());
     }
     s += &format!("t{order:?}");
+    let rv = m::petgraph::visit::Reversed(g);
+    let mut t = m::petgraph::visit::Topo::new(rv);
+    let mut order = vec![];
+    while let Some(n) = t.next(rv) {
+        order.push(n.index());
+    }
+    s += &format!("r{order:?}");
     s
 }
 
@@ -56,6 +63,13 @@ fn observe_r(g: &r::Dag<u8, u8, u32>) -> String {
         order.push(n.index());
     }
     s += &format!("t{order:?}");
+    let rv = r::petgraph::visit::Reversed(g.graph());
+    let mut t = r::petgraph::visit::Topo::new(rv);
+    let mut order = vec![];
+    while let Some(n) = t.next(rv) {
+        order.push(n.index());
+    }
+    s += &format!("r{order:?}");
     s
 }
 
@@ -124,4 +138,56 @@ fn all_sequences_up_to_4_ops() {
     }
     println!("daggy conformance: {checked} operation sequences compared");
     assert!(checked > 50_000);
+}
+
+/// `add_edges`: every batch of up to 3 edges over 3 nodes on top of every single first edge.
+#[test]
+fn add_edges_batches() {
+    let mut checked = 0;
+    for first in 0..9usize {
+        for code in 0..9usize.pow(3) {
+            for len in 1..=3usize {
+                let mut gm = m::Dag::<u8, u8, u32>::new();
+                let mut gr = r::Dag::<u8, u8, u32>::new();
+                for i in 0..3u8 {
+                    gm.add_node(i);
+                    gr.add_node(i);
+                }
+                let (a, b) = (first / 3, first % 3);
+                let x = gm.add_edge(m::NodeIndex::new(a), m::NodeIndex::new(b), 9).is_ok();
+                let y = gr.add_edge(r::NodeIndex::new(a), r::NodeIndex::new(b), 9).is_ok();
+                assert_eq!(x, y);
+                let mut c = code;
+                let mut batch = vec![];
+                for i in 0..len {
+                    batch.push((c % 9 / 3, c % 9 % 3, i as u8 + 1));
+                    c /= 9;
+                }
+                // stay inside the model bounds
+                let mut out = [0usize; 3];
+                let mut inn = [0usize; 3];
+                if x {
+                    out[a] += 1;
+                    inn[b] += 1;
+                }
+                for (p, q, _) in &batch {
+                    out[*p] += 1;
+                    inn[*q] += 1;
+                }
+                if out.iter().any(|v| *v > m::ADJ) || inn.iter().any(|v| *v > m::ADJ) {
+                    continue;
+                }
+                let rm = gm.add_edges(batch.iter().map(|(p, q, w)| (m::NodeIndex::new(*p), m::NodeIndex::new(*q), *w)));
+                let rr = gr.add_edges(batch.iter().map(|(p, q, w)| (r::NodeIndex::new(*p), r::NodeIndex::new(*q), *w)));
+                match (rm, rr) {
+                    (Ok(im), Ok(ir)) => assert_eq!(im.map(|e| e.index()).collect::<Vec<_>>(), ir.map(|e| e.index()).collect::<Vec<_>>()),
+                    (Err(em), Err(er)) => assert_eq!(em.0, er.0),
+                    (a, b) => panic!("add_edges differs for {batch:?}: model ok={} real ok={}", a.is_ok(), b.is_ok()),
+                }
+                assert_eq!(observe_m(&gm), observe_r(&gr), "after add_edges {batch:?} on first {first}");
+                checked += 1;
+            }
+        }
+    }
+    println!("add_edges conformance: {checked} batches compared");
 }
